@@ -9,16 +9,19 @@
     counters of the harnesses as the deciding monitors).
 
     HP half: proved for EVERY schedule (Conc.reach), every configuration, every client program.
-    DHP half: proved for the sequential retired-array core (every retire/scan/extend sequence, every block size
-    RB >= 4, arbitrary hazard lists); the statements over all interleavings are kept visible as [..._statement]
-    (they need a second invariant over [reach]: the not-yet-disposed retired pointers are exactly the cells below
-    each record's cursor plus the cells a running help_scan is moving; the per-record lemmas push_spec,
-    stage2_spec, extend_spec are proved).  The pre-fix behaviour of retired_array::extend (commit 1cc4b4f) is
-    refuted by a computed witness. *)
+    DHP half: "at most once" and "only retired objects" are proved for EVERY schedule (Conc.reach), every client
+    program (attach / detach with help_scan / guards / retire / scan), every block size RB >= 4, conditional on
+    the embedded free list of retired blocks behaving as a set (flbad = false: property C21); the invariant is
+    LV.Proofs.DhpInvB (every retired, not yet disposed pointer is in one place: below one record's cursor and not
+    yet moved away by a running help_scan, or in flight in one thread).  "Destruction disposes everything" and
+    "a scan frees what no guard holds" are proved for the sequential retired-array core (every retire / scan /
+    extend sequence, arbitrary hazard lists); their statements over all interleavings are kept visible as
+    [..._statement].  The pre-fix behaviour of retired_array::extend (commit 1cc4b4f) is refuted by a computed
+    witness. *)
 From Coq Require Import ZArith List String Permutation.
 From LV Require Import Base.Conc Base.Events.
 From LV Require Model.Hp Proofs.HpTrace Proofs.HpInv Proofs.HpProofs Proofs.HpDestroy.
-From LV Require Model.DhpLang Model.Dhp Proofs.DhpBase Proofs.DhpSeq Proofs.DhpSeqThm Proofs.DhpHist Proofs.DhpProofsC03.
+From LV Require Model.DhpLang Model.Dhp Proofs.DhpBase Proofs.DhpSeq Proofs.DhpSeqThm Proofs.DhpHist Proofs.DhpProofsC03 Proofs.DhpProofsC03b.
 Import ListNotations.
 Local Open Scope Z_scope.
 Local Open Scope string_scope.
@@ -74,10 +77,48 @@ Print Assumptions C03_hp_scan_frees_unguarded.
 Section DHP.
   Import Model.DhpLang Model.Dhp Proofs.DhpBase Proofs.DhpSeq Proofs.DhpSeqThm Proofs.DhpHist Proofs.DhpProofsC03.
 
-  (** the statements over all interleavings (not proved in this development) *)
+  (** the statements over all interleavings; the first is proved below up to the free-list hypothesis, the other
+      two are not proved in this development *)
   Definition C03_dhp_dispose_at_most_once_statement : Prop := dhp_dispose_at_most_once_statement.
   Definition C03_dhp_destroy_disposes_all_statement : Prop := dhp_destroy_disposes_all_statement.
   Definition C03_dhp_scan_frees_unguarded_statement : Prop := dhp_scan_frees_unguarded_statement.
+
+  (** proved for EVERY schedule: in every configuration reachable from the initial one by any sequence of thread
+      choices (any number of threads; any client programs over attach / detach / Guard / assign / clear / protect /
+      publish / retire / scan / wait; any block size RB >= 4), if every object is handed to retire() at most once
+      then no object is given to the disposer twice -- through every scan, extension of a retired array, detach
+      (the array's unused blocks are cut off, or it is torn down) and help_scan (the pointers of an orphaned record
+      are moved into the helper's array).  [flbad = false]: the embedded free list of retired blocks never handed
+      out a block that was not in it (property C21; the falsifying event is visible in the trace). *)
+  Theorem C03_dhp_dispose_at_most_once : forall fuel (c : cfg) ths conf,
+    (4 <= c_RB c)%nat -> c_old c = false -> c_oldtail c = false ->
+    Conc.reach (init_cfg fuel c ths) conf ->
+    flbad (hist (Conc.trace conf)) = false ->
+    NoDup (flat_map (fun e => retired_ev (snd e)) (Conc.trace conf)) ->
+    NoDup (disposed_of (Conc.trace conf)).
+  Proof. exact DhpProofsC03b.dhp_dispose_at_most_once. Qed.
+
+  (** ... and only objects that were handed to retire() are disposed *)
+  Theorem C03_dhp_disposed_were_retired : forall fuel (c : cfg) ths conf,
+    (4 <= c_RB c)%nat -> c_old c = false -> c_oldtail c = false ->
+    Conc.reach (init_cfg fuel c ths) conf ->
+    flbad (hist (Conc.trace conf)) = false ->
+    NoDup (flat_map (fun e => retired_ev (snd e)) (Conc.trace conf)) ->
+    incl (disposed_of (Conc.trace conf)) (flat_map (fun e => retired_ev (snd e)) (Conc.trace conf)).
+  Proof. exact DhpProofsC03b.dhp_disposed_were_retired. Qed.
+
+  (** non-vacuity of the two theorems above: thread 0 retires 5 and 6 and detaches while a guard of thread 1 holds 5
+      (its scan disposes 6 only, the array stays on the orphaned record); thread 1 then clears the guard and
+      detaches: its help_scan moves 5 into its own array and its scan disposes it.  The run is complete, the free
+      lists behaved, the retired objects are distinct, and both threads called the disposer. *)
+  Example C03_dhp_nonvacuous :
+    let r := Dhp.run_case [4; 2; 4; 0; 200; 1; 0]
+               [[[1]; [15;0;1]; [9;5]; [9;6]; [2]; [8;0;2]];
+                [[1]; [3;0]; [5;0;5]; [8;0;1]; [15;0;2]; [6;0]; [2]]] [] 5000 in
+    snd r = true /\ flbad (hist (fst r)) = false /\
+    flat_map (fun e => retired_ev (snd e)) (fst r) = [5%nat; 6%nat] /\ disposed_of (fst r) = [6%nat; 5%nat] /\
+    map fst (filter (fun e => match classify (snd e) with HDispose _ => true | _ => false end) (fst r)) = [0%nat; 1%nat].
+  Proof. vm_compute. repeat split; reflexivity. Qed.
 
   (** what is proved: the sequential core retire / scan / extend / destroy of one thread's retired array, for
       every block size RB >= 4, every operation sequence with arbitrary hazard lists, objects retired once:
@@ -107,6 +148,8 @@ Section DHP.
                  ~ NoDup (snd (seq_run c 0 os (seq_init c))).
   Proof. exact dhp_old_extend_refuted. Qed.
 End DHP.
+Print Assumptions C03_dhp_dispose_at_most_once.
+Print Assumptions C03_dhp_disposed_were_retired.
 Print Assumptions C03_dhp_dispose_at_most_once_partial.
 Print Assumptions C03_dhp_destroy_disposes_all_partial.
 Print Assumptions C03_dhp_scan_frees_unguarded_partial.
